@@ -66,6 +66,12 @@ pub fn asts() -> Vec<Sch> {
 		("ns.Outer{f:fixed ns.F(4),g:ns.F,e:enum ns.E}", S::record("ns.Outer", vec![("f", S::fixed("ns.F", 4)), ("g", S::rf("ns.F")), ("e", S::enum_("ns.E", &["A", "B"]))])),
 		("List{v:int,next:[null,List]}", S::record("List", vec![("v", S::Int), ("next", S::Union(vec![S::Null, S::rf("List")]))])),
 		("fixed ns.D(12)", S::fixed("ns.D", 12)),
+		// named types in the null namespace (their `Name` can be built from "X" or from ".X")
+		("enum Kind{A,B}", S::enum_("Kind", &["A", "B"])),
+		("enum ns.Kind{A,B} (namespace differs)", S::enum_("ns.Kind", &["A", "B"])),
+		("fixed F4(4) (null namespace)", S::fixed("F4", 4)),
+		("Msg{k:enum Kind,f:fixed F4,again:Kind}", S::record("Msg", vec![("k", S::enum_("Kind", &["A", "B"])), ("f", S::fixed("F4", 4)), ("again", S::rf("Kind"))])),
+		("ns.Msg{k:enum ns.Kind,f:fixed ns.F4,again:ns.Kind} (namespace differs)", S::record("ns.Msg", vec![("k", S::enum_("ns.Kind", &["A", "B"])), ("f", S::fixed("ns.F4", 4)), ("again", S::rf("ns.Kind"))])),
 		// same canonical form as an entry above, different logical type
 		("timestamp-micros(long) ~long", S::logical(Logical::TimestampMicros, S::Long)),
 		("timestamp-millis(long) ~long", S::logical(Logical::TimestampMillis, S::Long)),
@@ -127,7 +133,122 @@ pub struct Unit {
 	pub fp: [u8; 8],
 	/// (spelling text, parsed schema) — entry 0 is the plain spelling
 	pub schemas: Vec<(String, Schema)>,
+	/// per entry of `schemas`: 0 parsed spelling; 1 built node by node, Names from "ns.X" / "X";
+	/// 2 parsed from the json() of 1; 3 built, null-namespace Names from ".X"; 4 parsed from the json() of 3
+	pub kinds: Vec<u8>,
 	pub skipped_spellings: Vec<String>,
+	/// why a built variant is not among `schemas` (no verdict: C09/C19's question)
+	pub skipped_built: Vec<String>,
+}
+
+// ---------------------------------------------------------------------------------------------
+// Schemas built node by node through the public API
+
+#[derive(Clone, Copy, PartialEq, Eq, Debug)]
+pub enum NameStyle {
+	/// `Name::from_fully_qualified_name("ns.X")` / `("X")`
+	Plain,
+	/// null-namespace names through the documented leading-dot form `Name::from_fully_qualified_name(".X")`
+	LeadingDot,
+}
+
+fn has_null_namespace_named(s: &RSchema) -> bool {
+	match s {
+		RSchema::Record { name, fields } => !name.contains('.') || fields.iter().any(|(_, f)| has_null_namespace_named(f)),
+		RSchema::Enum { name, .. } | RSchema::Fixed { name, .. } => !name.contains('.'),
+		RSchema::Array(i) | RSchema::Map(i) | RSchema::Logical(_, i) => has_null_namespace_named(i),
+		RSchema::Union(v) => v.iter().any(has_null_namespace_named),
+		_ => false,
+	}
+}
+
+/// The node vector of `ast` for `SchemaMut::from_nodes` (root = node 0; a named type is one node,
+/// references are keys to it).
+pub fn build_nodes(ast: &RSchema, style: NameStyle) -> Result<Vec<serde_avro_fast::schema::SchemaNode>, String> {
+	use serde_avro_fast::schema as cs;
+	fn mk_name(full: &str, style: NameStyle) -> cs::Name {
+		if style == NameStyle::LeadingDot && !full.contains('.') {
+			cs::Name::from_fully_qualified_name(format!(".{full}"))
+		} else {
+			cs::Name::from_fully_qualified_name(full)
+		}
+	}
+	fn logical(l: &Logical) -> cs::LogicalType {
+		match l {
+			Logical::Decimal { precision, scale } => cs::LogicalType::Decimal(cs::Decimal::new(*scale, *precision)),
+			Logical::Uuid => cs::LogicalType::Uuid,
+			Logical::Date => cs::LogicalType::Date,
+			Logical::TimeMillis => cs::LogicalType::TimeMillis,
+			Logical::TimeMicros => cs::LogicalType::TimeMicros,
+			Logical::TimestampMillis => cs::LogicalType::TimestampMillis,
+			Logical::TimestampMicros => cs::LogicalType::TimestampMicros,
+			Logical::Duration => cs::LogicalType::Duration,
+			Logical::BigDecimal => cs::LogicalType::BigDecimal,
+			Logical::Unknown(n) => cs::LogicalType::Unknown(cs::UnknownLogicalType::new(n.clone())),
+		}
+	}
+	fn go(s: &RSchema, nodes: &mut Vec<cs::SchemaNode>, defs: &mut std::collections::HashMap<String, usize>, style: NameStyle) -> Result<cs::SchemaKey, String> {
+		if let RSchema::Ref(n) = s {
+			return defs.get(n).map(|&i| cs::SchemaKey::from_idx(i)).ok_or_else(|| format!("reference to {n} before its definition"));
+		}
+		if let RSchema::Logical(l, b) = s {
+			if matches!(**b, RSchema::Ref(_)) {
+				return Err("logical type on a reference".into());
+			}
+			let k = go(b, nodes, defs, style)?;
+			nodes[k.idx()].logical_type = Some(logical(l));
+			return Ok(k);
+		}
+		let idx = nodes.len();
+		nodes.push(cs::SchemaNode::new(cs::RegularType::Null));
+		if let Some(n) = s.fullname() {
+			defs.insert(n.to_owned(), idx);
+		}
+		let t = match s {
+			RSchema::Null => cs::RegularType::Null,
+			RSchema::Boolean => cs::RegularType::Boolean,
+			RSchema::Int => cs::RegularType::Int,
+			RSchema::Long => cs::RegularType::Long,
+			RSchema::Float => cs::RegularType::Float,
+			RSchema::Double => cs::RegularType::Double,
+			RSchema::Bytes => cs::RegularType::Bytes,
+			RSchema::String => cs::RegularType::String,
+			RSchema::Array(i) => cs::RegularType::Array(cs::Array::new(go(i, nodes, defs, style)?)),
+			RSchema::Map(i) => cs::RegularType::Map(cs::Map::new(go(i, nodes, defs, style)?)),
+			RSchema::Union(v) => {
+				let mut keys = Vec::new();
+				for b in v {
+					keys.push(go(b, nodes, defs, style)?);
+				}
+				cs::RegularType::Union(cs::Union::new(keys))
+			}
+			RSchema::Record { name, fields } => {
+				let mut fs = Vec::new();
+				for (fname, ft) in fields {
+					fs.push(cs::RecordField::new(fname.clone(), go(ft, nodes, defs, style)?));
+				}
+				cs::RegularType::Record(cs::Record::new(mk_name(name, style), fs))
+			}
+			RSchema::Enum { name, symbols } => cs::RegularType::Enum(cs::Enum::new(mk_name(name, style), symbols.clone())),
+			RSchema::Fixed { name, size } => cs::RegularType::Fixed(cs::Fixed::new(mk_name(name, style), *size)),
+			RSchema::Ref(_) | RSchema::Logical(..) => unreachable!(),
+		};
+		nodes[idx].type_ = t;
+		Ok(cs::SchemaKey::from_idx(idx))
+	}
+	let mut nodes = Vec::new();
+	let mut defs = std::collections::HashMap::new();
+	go(ast, &mut nodes, &mut defs, style)?;
+	Ok(nodes)
+}
+
+fn build_schema(ast: &RSchema, style: NameStyle) -> Result<Schema, String> {
+	let nodes = build_nodes(ast, style)?;
+	match guarded(|| serde_avro_fast::schema::SchemaMut::from_nodes(nodes).freeze().map_err(|e| e.to_string())) {
+		Out::Ok(s) => Ok(s),
+		Out::Err(e) => Err(format!("freeze: {e}")),
+		Out::Panic(e) => Err(format!("freeze panicked: {e}")),
+	}
 }
 
 /// Number of ASTs of the hand-made set (the pair part is quantified over these).
@@ -166,7 +287,32 @@ pub fn units(level: usize) -> Result<Vec<Unit>, String> {
 				}
 			}
 		}
-		out.push(Unit { id, label: s.label, ast: s.ast, pcf: p, fp, schemas, skipped_spellings: skipped });
+		let mut kinds: Vec<u8> = vec![0; schemas.len()];
+		let mut skipped_built = Vec::new();
+		// built variants are used whatever fingerprint the crate gives them: that the header of a
+		// built schema carries the fingerprint of the schema it denotes is C18's own question
+		let mut styles = vec![(NameStyle::Plain, 1u8, "built with SchemaMut::from_nodes, every Name from from_fully_qualified_name(\"ns.X\" / \"X\")")];
+		if has_null_namespace_named(&s.ast) {
+			styles.push((NameStyle::LeadingDot, 3u8, "built with SchemaMut::from_nodes, null-namespace Names from from_fully_qualified_name(\".X\")"));
+		}
+		for (style, kind, what) in styles {
+			match build_schema(&s.ast, style) {
+				Ok(b) => {
+					let json = b.json().to_owned();
+					schemas.push((format!("{what}, denoting {}", schemas[0].0), b));
+					kinds.push(kind);
+					match json.parse::<Schema>() {
+						Ok(pj) => {
+							schemas.push((format!("parsed from the json() of the schema {what}: {json}"), pj));
+							kinds.push(kind + 1);
+						}
+						Err(e) => skipped_built.push(format!("json() of the schema {what} does not parse: {json}: {e}")),
+					}
+				}
+				Err(e) => skipped_built.push(format!("{what}: {e}")),
+			}
+		}
+		out.push(Unit { id, label: s.label, ast: s.ast, pcf: p, fp, schemas, kinds, skipped_spellings: skipped, skipped_built });
 	}
 	Ok(out)
 }
@@ -693,12 +839,27 @@ pub fn run_leaf(us: &[Unit], a: usize, ch: &mut Chooser, leaf_no: u64, t: &Tier,
 	msg.extend_from_slice(&datum);
 	let expect = gen::expect_obs(&v, &u.ast, &env, ObsMode::Any, false).unborrowed();
 
-	// (1) serialization under every spelling: header exactly, datum denotes the value
+	// (1) serialization under every spelling / built variant: header exactly, datum denotes the value;
+	// a built schema and its parsed equivalent produce identical messages
+	let mut bytes0: Option<Vec<u8>> = None;
 	for (si, (text, schema)) in u.schemas.iter().enumerate() {
 		let p = gen::pres_of(&v, &u.ast, &env, UnionStyle::ByTypeWhereUnambiguous, RecordStyle::Struct);
 		let mut config = SerializerConfig::new(schema);
 		cover.impl_runs += 1;
 		let r = guarded(|| serde_avro_fast::to_single_object_vec(&p, &mut config).map_err(|e| e.to_string()));
+		if si == 0 {
+			if let Out::Ok(b) = &r {
+				bytes0 = Some(b.clone());
+			}
+		} else if u.kinds[si] != 0 {
+			if let (Some(b0), Out::Ok(b)) = (&bytes0, &r) {
+				if b0 != b {
+					viol("built-and-parsed-messages-differ", format!("to_single_object_vec under the schema {text} wrote [{}], under the schema parsed from {} it wrote [{}]", hex(b), u.schemas[0].0, hex(b0)), None);
+				} else {
+					cover.count("built_schema_message_identical_to_parsed", 1);
+				}
+			}
+		}
 		match r {
 			Out::Ok(bytes) => {
 				if bytes.len() < 10 || bytes[..2] != [0xC3, 0x01] || bytes[2..10] != u.fp {
@@ -733,8 +894,12 @@ pub fn run_leaf(us: &[Unit], a: usize, ch: &mut Chooser, leaf_no: u64, t: &Tier,
 			viol("de-slice", format!("from_single_object_slice([{}]) under spelling {si} ({text}) returned {}, expected Ok({expect:?})", hex(&msg), show(&r)), None);
 		} else {
 			cover.count("decoded_ok_slice", 1);
-			if si > 0 {
-				cover.count("decoded_ok_under_other_spelling", 1);
+			match u.kinds[si] {
+				0 if si > 0 => cover.count("decoded_ok_under_other_spelling", 1),
+				1 => cover.count("decoded_ok_under_built_schema", 1),
+				3 => cover.count("decoded_ok_under_built_schema_with_leading_dot_names", 1),
+				2 | 4 => cover.count("decoded_ok_under_schema_parsed_from_built_json", 1),
+				_ => {}
 			}
 		}
 		let cs: &[(Vec<usize>, usize)] = if si == 0 { &chunks } else { &chunks[..chunks.len().min(4)] };
@@ -825,6 +990,18 @@ pub fn run_leaf(us: &[Unit], a: usize, ch: &mut Chooser, leaf_no: u64, t: &Tier,
 						);
 					}
 				}
+				for (bi, (btext, bs)) in ub.schemas.iter().enumerate() {
+					if ub.kinds[bi] == 1 || ub.kinds[bi] == 3 {
+						cover.impl_runs += 1;
+						let r = so_slice(&msg, bs);
+						if !r.is_err() {
+							bad = true;
+							viol("foreign-schema-decoded", format!("message [{}] written under A (PCF {}) was given to schema B {btext} (PCF {}): slice returned {}", hex(&msg), u.pcf, ub.pcf, show(&r)), Some(b));
+						} else {
+							cover.count("foreign_schema_rejected_by_built_schema", 1);
+						}
+					}
+				}
 				if !bad {
 					cover.count("foreign_schema_rejected", 1);
 					if datum_slice(&datum, sb).is_ok() {
@@ -899,6 +1076,9 @@ fn run_unit(us: &[Unit], a: usize, t: &Tier) -> (Cover, Vec<Violation>) {
 	cover.add_tree(&st, &format!("schema {} ({})", a, us[a].label));
 	cover.count("spellings_used", us[a].schemas.len() as u64);
 	cover.count("spellings_skipped(C07/C08's business)", us[a].skipped_spellings.len() as u64);
+	cover.count("built_variants_used", us[a].kinds.iter().filter(|&&k| k == 1 || k == 3).count() as u64);
+	cover.count("built_variants_with_leading_dot_names_used", us[a].kinds.iter().filter(|&&k| k == 3).count() as u64);
+	cover.count("built_variants_skipped(freeze or json() failed: C09/C19's business)", us[a].skipped_built.len() as u64);
 	(cover, out)
 }
 
@@ -915,7 +1095,7 @@ pub fn run(rep: &mut Report) {
 	let distinct_pcf: std::collections::HashSet<&str> = us.iter().map(|u| u.pcf.as_str()).collect();
 	let same_pcf_pairs = us.iter().enumerate().map(|(i, a)| us.iter().enumerate().take(t.n_base).filter(|(j, b)| *j != i && b.pcf == a.pcf).count()).sum::<usize>();
 	rep.rule = format!(
-		"SAE: {} hand-made ASTs plus the {} schemas of the shared alphabet Σ_S level {} ({} distinct canonical forms; the hand-made set incl. pairs differing only in a record/enum/fixed name, namespace, field name or symbol, and {} ordered pairs with the same canonical form but another logical type), each in up to 4 spellings of the same canonical form (attribute order, extra attributes, whitespace, name/namespace forms; used only if the crate gives them the canonical fingerprint), x every value of gen::gen_value (full boundary alphabet, collections <= {} items, leaf cap {} per schema). Per (schema, value): to_single_object_vec = c3 01 ‖ fingerprint_le(pcf(AST)) ‖ datum that the reference decodes to the value; message (built by the model) decoded from the slice and from a ChunkedBufRead under {} returns the expected observation; each of the 10 header bytes x 8 bit flips => Err (slice + {} chunkings incl. a cut at every header position); truncation to every length: < 10 => Err, otherwise slice ≡ reader (Ok/Err + observation); for the first {} values per schema A, every B of the hand-made set: PCF differs => Err on slice / whole / 1-byte reader, PCF equal => same result as from_datum_* of the bare datum under B. For the first {} values per schema the message is also written with to_single_object into an envs::ScheduledSink: every regular schedule 'at most k bytes per write call' k = 1..=12, then every schedule with <= 2 deviations from accept-everything (short writes of envs::sink_menu, Interrupted, hard error, Ok(0); ENV, leaf cap {} per value): without a hard fault the call is Ok and the sink holds exactly the bytes the Vec variant produces, with a hard fault the call is Err. HIST: for {} schemas (long, string, record, array, union, enum) every history of <= {} calls on ONE SerializerConfig over the ops {{to_single_object_vec(v), to_single_object(v, Vec), the same with the k-th nested serialize call failing (every k, pres::with_failure), genuinely mismatching presentations (wrong type, wrong type after a written prefix, unknown field / branch / symbol)}} x 2 values, each op validated on a fresh configuration; after every call: an ok-op returns exactly the message a fresh configuration (= the model) gives, a failing op still fails, no panic (no state merging: the key is the history). Error messages never compared. Non-trivial: every history in which an ok-op follows a failed op on the same configuration, and every (schema, input bytes, decoding schema) case — whole message, one flipped header bit, one truncation, one foreign/equivalent schema; distinct on exactly that triple.",
+		"SAE: {} hand-made ASTs plus the {} schemas of the shared alphabet Σ_S level {} ({} distinct canonical forms; the hand-made set incl. pairs differing only in a record/enum/fixed name, namespace, field name or symbol, and {} ordered pairs with the same canonical form but another logical type), each in up to 4 spellings of the same canonical form (attribute order, extra attributes, whitespace, name/namespace forms; used only if the crate gives them the canonical fingerprint) and, as further writer/reader schemas, built node by node with SchemaMut::from_nodes(..).freeze() (every Name from Name::from_fully_qualified_name('ns.X' / 'X'); when the AST has a null-namespace named type also with those Names from the leading-dot form '.X') plus the schema parsed from each built schema's json() — built variants are used whatever fingerprint the crate gives them and must write byte-identical messages to the parsed schema; built variants of B also have to reject foreign messages, x every value of gen::gen_value (full boundary alphabet, collections <= {} items, leaf cap {} per schema). Per (schema, value): to_single_object_vec = c3 01 ‖ fingerprint_le(pcf(AST)) ‖ datum that the reference decodes to the value; message (built by the model) decoded from the slice and from a ChunkedBufRead under {} returns the expected observation; each of the 10 header bytes x 8 bit flips => Err (slice + {} chunkings incl. a cut at every header position); truncation to every length: < 10 => Err, otherwise slice ≡ reader (Ok/Err + observation); for the first {} values per schema A, every B of the hand-made set: PCF differs => Err on slice / whole / 1-byte reader, PCF equal => same result as from_datum_* of the bare datum under B. For the first {} values per schema the message is also written with to_single_object into an envs::ScheduledSink: every regular schedule 'at most k bytes per write call' k = 1..=12, then every schedule with <= 2 deviations from accept-everything (short writes of envs::sink_menu, Interrupted, hard error, Ok(0); ENV, leaf cap {} per value): without a hard fault the call is Ok and the sink holds exactly the bytes the Vec variant produces, with a hard fault the call is Err. HIST: for {} schemas (long, string, record, array, union, enum) every history of <= {} calls on ONE SerializerConfig over the ops {{to_single_object_vec(v), to_single_object(v, Vec), the same with the k-th nested serialize call failing (every k, pres::with_failure), genuinely mismatching presentations (wrong type, wrong type after a written prefix, unknown field / branch / symbol)}} x 2 values, each op validated on a fresh configuration; after every call: an ok-op returns exactly the message a fresh configuration (= the model) gives, a failing op still fails, no panic (no state merging: the key is the history). Error messages never compared. Non-trivial: every history in which an ok-op follows a failed op on the same configuration, and every (schema, input bytes, decoding schema) case — whole message, one flipped header bit, one truncation, one foreign/equivalent schema; distinct on exactly that triple.",
 		t.n_base,
 		us.len() - t.n_base,
 		t.level,
@@ -951,6 +1131,8 @@ pub fn run(rep: &mut Report) {
 		rep.violations.extend(v);
 	}
 	rep.extra.insert("history_schemas".into(), json!(hus.iter().map(|u| json!({"schema": u.text, "ops": u.ops.len(), "dropped_ops": u.dropped})).collect::<Vec<_>>()));
+	let sb: Vec<&String> = us.iter().flat_map(|u| u.skipped_built.iter()).collect();
+	rep.extra.insert("built_variants_not_used".into(), json!({"count": sb.len(), "first": sb.iter().take(4).collect::<Vec<_>>()}));
 	rep.extra.insert("schemas".into(), json!(us.len()));
 	let skipped: Vec<&String> = us.iter().flat_map(|u| u.skipped_spellings.iter()).collect();
 	rep.extra.insert("spellings_not_used_because_rejected_or_fingerprinted_differently".into(), json!({"count": skipped.len(), "first": skipped.iter().take(4).collect::<Vec<_>>()}));
@@ -974,6 +1156,11 @@ pub fn run(rep: &mut Report) {
 		"sink_deviating_schedule_without_fault",
 		"hist_ok_call_after_a_failed_call_on_the_same_config",
 		"hist_failing_ops_leaving_a_partial_datum",
+		"decoded_ok_under_built_schema",
+		"decoded_ok_under_built_schema_with_leading_dot_names",
+		"decoded_ok_under_schema_parsed_from_built_json",
+		"built_schema_message_identical_to_parsed",
+		"foreign_schema_rejected_by_built_schema",
 	];
 	if rep.violations.is_empty() {
 		for k in need {
